@@ -73,32 +73,126 @@
 @@ ConfigIndex::query_config_page foriter 1 it
 @@ ConfigIndex::query_config_page foriter 2 it2
 @@ ConfigIndex::query_config_page spec
-    requires param.offset + limit <= usize::MAX, self.hits(*param).len() <= usize::MAX
+    requires offset + limit <= usize::MAX, self.hits(*param).len() <= usize::MAX
     // C09: the total is the number of stored (group, data id) pairs that match; the page is the window [offset, offset+limit)
     // of THE canonical list of matches (groups increasing, data ids increasing) — so pages of one search tile it exactly
     ensures r.0 == self.hits(*param).len(),
-        r.1@ == to_keys(page(self.hits(*param), param.offset as int, limit as int), *tenant),
+        r.1@ == to_keys(page(self.hits(*param), offset as int, limit as int), *tenant),
 @@ ConfigIndex::query_config_page entry
     broadcast use group_btree_axioms;
+    broadcast use axiom_btree_set_iter_increasing;
     proof { axiom_arc_string_ord(); }
     let ghost m = self.group_data@;
     let ghost gs = sorted_seq(m.dom());
     let ghost p = *param;
-    let ghost off = param.offset as int;
+    let ghost off = offset as int;
     let ghost lim = limit as int;
+    let ghost nall = m.dom().len() as int;
+@@ ConfigIndex::query_config_page before_loop 1
+    proof {
+        if m.dom().len() == 0 { assert(m.dom() =~= Set::<K>::empty()); lemma_sorted_empty(); }
+    }
 @@ ConfigIndex::query_config_page loop 1
-    invariant ord_lawful::<K>(), m == self.group_data@, gs == sorted_seq(m.dom()), p == *param, off == param.offset, lim == limit,
-        end_index == off + lim,
-        it.seq().len() == gs.len(), gs.len() == m.dom().len(),
-        forall|i: int| 0 <= i < gs.len() ==> *(#[trigger] it.seq()[i]).0 == gs[i] && m.contains_key(gs[i]) && *it.seq()[i].1 == m[gs[i]],
+    invariant ord_lawful::<K>(), m == self.group_data@, gs == sorted_seq(m.dom()), p == *param, off == offset, lim == limit,
+        end_index == off + lim, nall == m.dom().len(),
+        it.seq().len() == nall,
+        increasing_seq(keys_of(it.seq())),
+        forall|i: int| 0 <= i < it.seq().len() ==> m.contains_key(*(#[trigger] it.seq()[i]).0) && *it.seq()[i].1 == m[*it.seq()[i].0],
+        forall|k: K| m.contains_key(k) ==> exists|i: int| 0 <= i < it.seq().len() && *(#[trigger] it.seq()[i]).0 == k,
+        nall == 0 ==> gs.len() == 0,
+        it.index@ > 0 ==> keys_of(it.seq()) == gs,
         index == idx_hits(p, m, gs, it.index@).len(),
         rlist@ == to_keys(page(idx_hits(p, m, gs, it.index@), off, lim), *tenant),
-        idx_hits(p, m, gs, gs.len() as int).len() <= usize::MAX,
+        idx_hits(p, m, gs, nall).len() <= usize::MAX,
+@@ ConfigIndex::query_config_page loop 1 body_entry
+    broadcast use group_btree_axioms;
+    broadcast use axiom_btree_set_iter_increasing;
+    proof {
+        lemma_iter_keys_sorted(it.seq(), m);
+        assert(keys_of(it.seq())[it.index@] == *it.seq()[it.index@].0);
+        lemma_idx_hits_mono(p, m, gs, it.index@ + 1, nall);
+    }
+    let ghost gi = it.index@;
+    let ghost hprev = idx_hits(p, m, gs, gi);
+    let ghost ds = sorted_seq(m[*g]@);
 @@ ConfigIndex::query_config_page loop 2
-    invariant ord_lawful::<K>(), m == self.group_data@, gs == sorted_seq(m.dom()), p == *param, off == param.offset, lim == limit,
+    invariant ord_lawful::<K>(), m == self.group_data@, gs == sorted_seq(m.dom()), p == *param, off == offset, lim == limit,
         end_index == off + lim,
-        hprev == idx_hits(p, m, gs, gi), 0 <= gi < gs.len(), *g == gs[gi], grp_match(p, *g),
-        ds == sorted_seq(m[*g]@), it2.seq().unref() == ds, ds.len() == m[*g]@.len(),
+        hprev == idx_hits(p, m, gs, gi), 0 <= gi < gs.len(), *g == gs[gi], grp_match(p, *g), m.contains_key(*g), *set == m[*g],
+        ds == sorted_seq(m[*g]@),
+        it2.seq().unref().to_set() == set@, it2.seq().len() == set@.len(), increasing_seq(it2.seq().unref()),
+        it2.index@ > 0 ==> it2.seq().unref() == ds,
         index == (hprev + grp_hits(p, *g, ds, it2.index@)).len(),
         rlist@ == to_keys(page(hprev + grp_hits(p, *g, ds, it2.index@), off, lim), *tenant),
-        (hprev + grp_hits(p, *g, ds, ds.len() as int)).len() <= usize::MAX,
+        (hprev + grp_hits(p, *g, ds, set@.len() as int)).len() <= usize::MAX,
+@@ ConfigIndex::query_config_page loop 2 body_entry
+    proof {
+        lemma_is_sorted_seq(it2.seq().unref(), set@);
+        assert(it2.seq().unref()[it2.index@] == *it2.seq()[it2.index@]);
+        lemma_grp_hits_mono(p, *g, ds, it2.index@ + 1, set@.len() as int);
+        let h = hprev + grp_hits(p, *g, ds, it2.index@);
+        if did_match(p, *s) {
+            assert(hprev + grp_hits(p, *g, ds, it2.index@ + 1) =~= h.push((*g, *s)));
+            lemma_page_push(h, (*g, *s), off, lim);
+            lemma_to_keys_push(page(h, off, lim), (*g, *s), *tenant);
+        }
+    }
+@@ ConfigIndex::query_config_page before_loop 2
+                proof {
+                    assert(hprev + grp_hits(p, *g, ds, 0) =~= hprev);
+                }
+@@ ConfigIndex::query_config_page after_loop 2
+                proof {
+                    if set@.len() == 0 { }
+                }
+@@ ConfigKey::new_by_arc spec
+    ensures r == (ConfigKey { data_id, group, tenant })
+@@ TenantIndex::query_config_page t8 1
+@@ TenantIndex::query_config_page foriter 1 it
+@@ TenantIndex::query_config_page spec
+    requires param.offset + param.limit <= usize::MAX, self.result_list(*param).len() <= usize::MAX,
+        forall|t: K| #[trigger] self.tenant_group@.contains_key(t) ==> self.tenant_group@[t].hits(*param).len() <= usize::MAX,
+    // C09: total = number of matches in the permitted namespaces; page = window [offset, offset+limit) of THE canonical list
+    // C18: a namespace the privilege does not permit contributes nothing (result_list skips it)
+    ensures r.0 == self.result_list(*param).len(),
+        r.1@ == page(self.result_list(*param), param.offset as int, param.limit as int),
+@@ TenantIndex::query_config_page entry
+    broadcast use group_btree_axioms;
+    broadcast use group_std_extra;
+    proof { axiom_arc_string_ord(); reveal_strlit(""); }
+    let ghost tm = self.tenant_group@;
+    let ghost ts = sorted_seq(tm.dom());
+    let ghost p = *param;
+    let ghost off = param.offset as int;
+    let ghost lim0 = param.limit as int;
+    let ghost nall = tm.dom().len() as int;
+@@ TenantIndex::query_config_page before_loop 1
+    proof {
+        if tm.dom().len() == 0 { assert(tm.dom() =~= Set::<K>::empty()); lemma_sorted_empty(); }
+    }
+@@ TenantIndex::query_config_page loop 1
+    invariant ord_lawful::<K>(), tm == self.tenant_group@, ts == sorted_seq(tm.dom()), p == *param, off == param.offset, lim0 == param.limit,
+        nall == tm.dom().len(), param.tenant is None, off + lim0 <= usize::MAX,
+        it.seq().len() == nall,
+        increasing_seq(keys_of(it.seq())),
+        forall|i: int| 0 <= i < it.seq().len() ==> tm.contains_key(*(#[trigger] it.seq()[i]).0) && *it.seq()[i].1 == tm[*it.seq()[i].0],
+        forall|k: K| tm.contains_key(k) ==> exists|i: int| 0 <= i < it.seq().len() && *(#[trigger] it.seq()[i]).0 == k,
+        nall == 0 ==> ts.len() == 0,
+        it.index@ > 0 ==> keys_of(it.seq()) == ts,
+        size == ten_hits(p, tm, ts, it.index@).len(),
+        rlist@ == page(ten_hits(p, tm, ts, it.index@), off, lim0),
+        limit == lim0 - rlist@.len(),
+        offset == off - imin(off, ten_hits(p, tm, ts, it.index@).len() as int),
+        ten_hits(p, tm, ts, nall).len() <= usize::MAX,
+        forall|t: K| #[trigger] tm.contains_key(t) ==> tm[t].hits(p).len() <= usize::MAX,
+@@ TenantIndex::query_config_page loop 1 body_entry
+    broadcast use group_btree_axioms;
+    broadcast use group_std_extra;
+    proof {
+        reveal_strlit("");
+        lemma_iter_keys_sorted(it.seq(), tm);
+        assert(keys_of(it.seq())[it.index@] == *it.seq()[it.index@].0);
+        lemma_ten_hits_mono(p, tm, ts, it.index@ + 1, nall);
+        let prev = ten_hits(p, tm, ts, it.index@);
+        lemma_page_concat(prev, to_keys(tm[*tenant].hits(p), *tenant), off, lim0);
+    }
